@@ -11,6 +11,15 @@ _ODE_NOTE = ("the strict C reader is trusted for the statement shapes it accepts
 _ODE_TECH = ("TLA+ spec OdeGen.tla model-checked with TLC over all small networks; TLC-chosen and random networks rendered by the real "
              "generator for dense/sparse/cusparse/odeint, read back with a strict C reader and validated event by event by Trace_OdeGen.tla")
 CHECKS = {
+    "C08": dict(level="model_checking", design_ref="DESIGN.md §4 C08, §11",
+        technique="TLA+ spec SpeciesName.tla (the parser as a state machine over character sequences + the declarative composition of a "
+                  "token sequence) model-checked with TLC; TLC-chosen, random, garbage and bundled names parsed by the real Species and "
+                  "re-parsed by TLC in Trace_SpeciesName.tla",
+        text="TLC checks that the longest-first match-and-mask parser recovers the intended composition of every canonical name of <= 2 "
+             "tokens over hazard-rich symbol lists x prefix x charge (two tables); for every real Species(name) TLC recomputes the parse "
+             "and compares element counts, phase/group, grain/group, charge, is-atom and mass number, the intended composition and gas "
+             "counterpart for canonical names, and rejection of names with a foreign character.",
+        note="pseudo-element patterns treated as literals; mass numbers read independently from the repository's tables"),
     "C06": dict(level="model_checking", design_ref="DESIGN.md §4 C06, §11",
         technique="TLA+ spec Rates.tla (window guard + zero-initialised k[] + override) model-checked with TLC over all window shapes and "
                   "temperatures; files of six formats encoded with every window spelling, read and rendered by the real code; emitted "
